@@ -28,6 +28,13 @@ def run(ctx):
     ctx.add_tlc(res, "Noise_Gen simulate depth=%d" % depth, "R-generate")
     if not res.emitted:
         raise RuntimeError("Noise_Gen produced nothing")
+    # every sequence of 4 (thorough: 5) steps over the voltage-side alphabet of one stream and one background
+    d2 = ctx.pick(4, 5)
+    res2 = tlc.run(MODULE, tlc.cfg_with("Noise_Gen.cfg", {"MaxOps": str(d2), "Focus": '"streams"'}, ctx.outdir), ctx.outdir, workers=1)
+    ctx.add_tlc(res2, "Noise_Gen Focus=streams depth=%d (exhaustive)" % d2, "R-generate")
+    if not res2.emitted:
+        raise RuntimeError("Noise_Gen Focus=streams produced nothing")
+    res.emitted.extend(res2.emitted)
     for n, beh in enumerate(res.emitted):
         steps = [s for s in beh["steps"] if s["act"]["name"] != "Done"]
         ctx.mark((beh["geo"]["dfdt10"], beh["geo"]["T"], beh["geo"]["dt2"]) + tuple(tuple(sorted((k, str(v)) for k, v in s["act"].items())) for s in steps))
